@@ -2,7 +2,7 @@
 From Coq Require Import ZArith List Bool.
 From Coq Require Import Permutation Sorted.
 From CTM Require Import Base.Sx Model.IntDtype Model.Vote Proofs.CorrP Proofs.ArgmaxP Proofs.VoteP Proofs.VoteMainP
-     Proofs.SubsetP Proofs.ChooseP.
+     Proofs.SubsetP Proofs.ChooseP Model.AvgCorr Proofs.AvgCorrP.
 Import ListNotations.
 Open Scope Z_scope.
 
@@ -103,4 +103,47 @@ Proof. vm_compute. repeat split; reflexivity. Qed.
 Example c02_example :
   nearest [8; 0; 16; 24] [[0; 8; 0; 0]; [16; 0; 32; 50]; [8; 0; 16; 24]] [0%nat; 2%nat; 3%nat] = Some 2%nat /\
   n_bootstrap (1, 2) 5 = 2 /\ n_bootstrap (1, 10) 3 = 1 /\ n_bootstrap (1, 2) 0 = 0.
+Proof. vm_compute. repeat split; reflexivity. Qed.
+
+(* "its average correlation is the mean winning correlation over the iterations that voted for it":
+   what the loop of tally_votes, the column sums of aggregate_votes and the division of choose_node leave for a
+   reference type t is (sum of the winning correlations of the iterations whose nearest leaf belongs to t) over
+   (the number of those iterations, or 1 when there is none) -- for every number of iterations, leaves and
+   types, every assignment of leaves to types and every sequence of winners; correlations are exact integers
+   over the common denominator D *)
+Theorem c02_avg_corr_is_mean_of_own_votes : forall D owners its t,
+  avg_corr D owners (tally_corr (length owners) its) t =
+  (own_corr_sum owners its t, D * (if 0 <? own_votes owners its t then own_votes owners its t else 1)).
+Proof. exact avg_corr_is_mean. Qed.
+Print Assumptions c02_avg_corr_is_mean_of_own_votes.
+
+(* the aggregated vote count of a type is the number of iterations that voted for one of its leaves, and the
+   aggregated correlation sum is the sum over exactly those iterations *)
+Theorem c02_aggregated_votes_exact : forall owners its t,
+  sum_where owners (fst (tally_corr (length owners) its)) t = own_votes owners its t.
+Proof. exact agg_votes_exact. Qed.
+Print Assumptions c02_aggregated_votes_exact.
+
+Theorem c02_aggregated_corr_exact : forall owners its t,
+  sum_where owners (snd (tally_corr (length owners) its)) t = own_corr_sum owners its t.
+Proof. exact agg_corr_exact. Qed.
+Print Assumptions c02_aggregated_corr_exact.
+
+(* the order in which the iterations are tallied is irrelevant *)
+Theorem c02_tally_order_irrelevant : forall owners its1 its2 t,
+  sum_where owners (snd (tally_corr (length owners) (its1 ++ its2))) t =
+  sum_where owners (snd (tally_corr (length owners) (its2 ++ its1))) t /\
+  sum_where owners (fst (tally_corr (length owners) (its1 ++ its2))) t =
+  sum_where owners (fst (tally_corr (length owners) (its2 ++ its1))) t.
+Proof. exact tally_order_irrelevant. Qed.
+Print Assumptions c02_tally_order_irrelevant.
+
+(* non-vacuity: 4 leaves owned by types 7,9,7,8; five iterations; type 7 wins through two different leaves *)
+Example c02_avg_corr_example :
+  let its := [(0%nat, 512); (2%nat, 256); (1%nat, -128); (0%nat, 1024); (3%nat, 64)] in
+  let st := tally_corr 4 its in
+  st = ([2; 1; 1; 1], [1536; -128; 256; 64]) /\
+  avg_corr 1024 [7; 9; 7; 8] st 7 = (1792, 1024 * 3) /\
+  avg_corr 1024 [7; 9; 7; 8] st 9 = (-128, 1024 * 1) /\
+  avg_corr 1024 [7; 9; 7; 8] st 5 = (0, 1024 * 1).
 Proof. vm_compute. repeat split; reflexivity. Qed.
